@@ -201,6 +201,9 @@ func (a *recAggr) Report(s core.Sample) {
 			}
 			net = f[10]
 		}
+		// A reported sample belongs to the aggregator (the phout aggregator hands it to the sample pool, where the next
+		// Acquire overwrites it): consume it, so that a sample object reported a second time does not read as a discarded one
+		ns.SetUserNet(0)
 	}
 	a.rec.mu.Lock()
 	if a.rec.net == "-" {
